@@ -311,6 +311,53 @@ fn scripted_pke<B: Backend>(c: &ScriptCase, acc: &mut Acc) -> R {
     Ok(())
 }
 
+// ---------------------------------------------------------------------------
+// a back end that cannot compute Argon2id with p > 1 lanes may decline such parameters;
+// if it wraps with them, the blob must still be the specification's for the parameters it carries
+
+#[derive(Clone, Debug, Serialize, Deserialize)]
+pub struct ParaCase {
+    pub secret: bool,
+    pub wrapped: KeySeed,
+    pub password: BytesSpec,
+    pub kib: u32,
+    pub time: u8,
+    pub para: u8,
+}
+
+fn para_case<B: Backend>(c: &ParaCase, acc: &mut Acc) -> R {
+    let name = B::NAME;
+    let ver = B::VER;
+    let ks = if c.secret { "secret" } else { "local" };
+    let params = PwParams::Argon2id { mem_bytes: (c.kib as u64).max(8 * c.para as u64) * 1024, time: c.time as u32, para: c.para as u32 };
+    let pw = c.password.bytes();
+    let ptk: Vec<u8> = if c.secret { secret_bytes(ver, &c.wrapped) } else { local_key_bytes(&c.wrapped).to_vec() };
+    let r = if c.secret {
+        secret_key::<B>(&c.wrapped).password_wrap_with_params(&pw, &pw_params::<B>(&params)).map(|w| w.to_string())
+    } else {
+        local_key::<B>(&c.wrapped).password_wrap_with_params(&pw, &pw_params::<B>(&params)).map(|w| w.to_string())
+    };
+    acc.eval();
+    acc.nt(hash_of(&(c.secret, &c.wrapped, &c.password, c.kib, c.time, c.para)));
+    match r {
+        Err(_) => {
+            acc.class("parallelism>1:declined");
+            Ok(())
+        }
+        Ok(text) => {
+            acc.class("parallelism>1:wrapped");
+            let got = model::pbkw_unwrap(ver, ks, &pw, &text);
+            match got {
+                Ok(k) if same_key(&k, &ptk) => Ok(()),
+                other => Err(Fail::new(
+                    format!("C07/{name}/pbkw/{ks}/impl-vs-spec/parallelism-field-not-honoured"),
+                    format!("the blob carries {params:?} but is not the specification's wrap for those parameters (reference unwrap: {:?})", other.map(|k| k.len())),
+                )),
+            }
+        }
+    }
+}
+
 fn subs_for<B: Backend>(out: &mut Vec<SubCheck>) {
     let v1 = B::VER == Ver::V1;
     for kind in 0u8..3 {
@@ -331,6 +378,20 @@ fn subs_for<B: Backend>(out: &mut Vec<SubCheck>) {
             },
         ));
     }
+    if !B::VER.nist() {
+        out.push(SubCheck::prop(
+            format!("c07.pbkw-parallelism/{}", B::NAME),
+            2,
+            (40, 600),
+            |_tier| {
+                (any::<bool>(), gens::key_seed(), gens::password(), 8u32..=256, 1u8..=2, 2u8..=4).prop_map(|(secret, wrapped, password, kib, time, para)| ParaCase { secret, wrapped, password, kib, time, para })
+            },
+            |c: &ParaCase, acc: &mut Acc| {
+                rng::reseed_case(hash_of(&(&c.wrapped, c.kib)));
+                para_case::<B>(c, acc)
+            },
+        ));
+    }
     if B::GETRANDOM {
         out.push(SubCheck::prop(
             format!("c07.pke-scripted/{}", B::NAME),
@@ -348,7 +409,7 @@ pub fn def() -> PropertyDef {
     PropertyDef {
         id: "C07",
         level: "exploration",
-        rule: "proptest cases (kind {PIE, PBKW, PKE} x wrapped key {local, secret} x wrapping key / password / recipient x PBKW parameters within budget (p = 1..4 where supported) x nonce kind {seeded, zero, ones, counter block at the 64/128-bit wrap} x optional forced derived counter block (paseto_verif hook; v1/v3 PIE and PKE)); relations: (1) the library's blob equals the reference model's blob recomputed from the nonce/salt/ephemeral key it embeds (PKE: recomputed with the recipient secret; with scripted RNG the ephemeral key itself is compared), (2) model-built blobs with model-chosen nonces (incl. 0xff..ff counter blocks in k1/k3 password wraps) unwrap to the same key on every back end of the version, (3) the sibling unwraps this back end's output. Non-trivial iff wrap-around nonce kind, secret key payload, PBKW (non-default parameters) or forced IV",
+        rule: "proptest cases (kind {PIE, PBKW, PKE} x wrapped key {local, secret} x wrapping key / password / recipient x PBKW parameters within budget (p = 1..4 where supported) x nonce kind {seeded, zero, ones, counter block at the 64/128-bit wrap} x optional forced derived counter block (paseto_verif hook; v1/v3 PIE and PKE)); relations: (1) the library's blob equals the reference model's blob recomputed from the nonce/salt/ephemeral key it embeds (PKE: recomputed with the recipient secret; with scripted RNG the ephemeral key itself is compared), (2) model-built blobs with model-chosen nonces (incl. 0xff..ff counter blocks in k1/k3 password wraps) unwrap to the same key on every back end of the version, (3) the sibling unwraps this back end's output, (4) Argon2id parallelism 2..4 on every v2/v4 back end: the back end either declines or produces the blob the reference (argon2 crate, p lanes) unwraps. Non-trivial iff wrap-around nonce kind, secret key payload, PBKW (non-default parameters) or forced IV",
         assumptions: vec!["reference model validated on the upstream vectors", "Argon2id through libsodium for parallelism 1 and through the argon2 crate for parallelism 2..4 (RustCrypto back ends only); memory multiples of 1 KiB"],
         subs,
     }
